@@ -443,6 +443,7 @@ Rabbitmq table fields
 
 't' bool			boolean
 'b' int8			short-short-int
+'B' uint8			short-short-uint
 's'	int16			short-int
 'I' int32			long-int
 'l' int64			long-long-int
@@ -453,7 +454,8 @@ Rabbitmq table fields
 'T' time.Time		timestamp
 'F' Table			field-table
 'V' nil				no-field
-'x' []interface{} 	field-array
+'A' []interface{} 	field-array
+'x' []byte			byte-array
 */
 func readValueRabbit(r io.Reader) (data interface{}, err error) {
 	vType, err := ReadOctet(r)
@@ -471,6 +473,12 @@ func readValueRabbit(r io.Reader) (data interface{}, err error) {
 		return rData != 0, nil
 	case 'b':
 		var rData int8
+		if err = binary.Read(r, binary.BigEndian, &rData); err != nil {
+			return nil, err
+		}
+		return rData, nil
+	case 'B':
+		var rData uint8
 		if err = binary.Read(r, binary.BigEndian, &rData); err != nil {
 			return nil, err
 		}
@@ -529,9 +537,15 @@ func readValueRabbit(r io.Reader) (data interface{}, err error) {
 		}
 
 		return rData, nil
-	case 'x':
+	case 'A':
 		var rData []interface{}
 		if rData, err = readArray(r, ProtoRabbit); err != nil {
+			return nil, err
+		}
+		return rData, nil
+	case 'x':
+		var rData []byte
+		if rData, err = ReadLongstr(r); err != nil {
 			return nil, err
 		}
 		return rData, nil
@@ -693,6 +707,7 @@ Rabbitmq table fields
 
 't' bool			boolean
 'b' int8			short-short-int
+'B' uint8			short-short-uint
 's'	int16			short-int
 'I' int32			long-int
 'l' int64			long-long-int
@@ -703,7 +718,8 @@ Rabbitmq table fields
 'T' time.Time		timestamp
 'F' Table			field-table
 'V' nil				no-field
-'x' []interface{} 	field-array
+'A' []interface{} 	field-array
+'x' []byte			byte-array
 */
 func writeValueRabbit(writer io.Writer, v interface{}) (err error) {
 	switch value := v.(type) {
@@ -720,8 +736,8 @@ func writeValueRabbit(writer io.Writer, v interface{}) (err error) {
 			err = binary.Write(writer, binary.BigEndian, value)
 		}
 	case uint8:
-		if err = WriteOctet(writer, byte('b')); err == nil {
-			err = binary.Write(writer, binary.BigEndian, int8(value))
+		if err = WriteOctet(writer, byte('B')); err == nil {
+			err = binary.Write(writer, binary.BigEndian, value)
 		}
 	case int16:
 		if err = WriteOctet(writer, byte('s')); err == nil {
@@ -762,7 +778,7 @@ func writeValueRabbit(writer io.Writer, v interface{}) (err error) {
 			}
 		}
 	case []byte:
-		if err = WriteOctet(writer, byte('S')); err == nil {
+		if err = WriteOctet(writer, byte('x')); err == nil {
 			err = WriteLongstr(writer, value)
 		}
 	case string:
@@ -774,7 +790,7 @@ func writeValueRabbit(writer io.Writer, v interface{}) (err error) {
 			err = WriteTimestamp(writer, value)
 		}
 	case []interface{}:
-		if err = WriteOctet(writer, byte('x')); err == nil {
+		if err = WriteOctet(writer, byte('A')); err == nil {
 			err = writeArray(writer, value, ProtoRabbit)
 		}
 	case Table:
